@@ -185,8 +185,13 @@ def check_register_crc(ctx, clsname, mod, n, poly, steps_expected):
         # (either the step is excluded by the clear condition -- If(clear)/Elif(step) -- or the clear is a later
         #  assignment with nothing but its own condition, which wins under last-assignment-wins)
         catoms = q.atoms(clears[0]) if clears else set()
-        ok = bool(catoms) and (all((x, not p) in q.atoms(a) for x, p in catoms) or
-                               (clears[0].order > a.order and clears[0].state == a.state and clears[0].domain == a.domain))
+        from ..fsm import lit_atoms as _la, assignments as _asgs, holds as _holds
+        ok = bool(catoms) and (clears[0].order > a.order and clears[0].state == a.state and clears[0].domain == a.domain)
+        if catoms and not ok:
+            # no valuation of the conditions lets the step and the clear fire together
+            ats_ = sorted({x for it in (clears[0], a) for l in it.guard for x in _la(l)})
+            ok = clears[0].state == a.state and len(ats_) <= 12 and \
+                not any(_holds(clears[0].guard, g) and _holds(a.guard, g) for g in _asgs(ats_))
         ctx.ob('C30.clear-priority', gkey, ok, a.loc, 'the update must be excluded by the clear condition')
     have = sorted(k for k, v in found.items() for _ in v)
     ctx.ob('C30.steps-present', clsname + '.variants', have == sorted(steps_expected), None,
@@ -285,7 +290,13 @@ def run(ctx):
         fld = [a for a in irx.assigns if a.lhs.canon().endswith('.crc5') and a.rhs.canon() == 'self.sink.payload[27:32]']
         ctx.ob('C30.crc5-site', cls_ + '.crc5-field', len(fld) >= 1, fld[0].loc if fld else None,
                'the received CRC5 field is bits 27..31 of DW3')
-    site_assign('LinkCommandGenerator', 'usb3.link.command', 'link_command[11:16]', 'link_command', 16, 0, 11, 'LinkCommandGenerator.crc5')
+    lcg = ctx.ir('LinkCommandGenerator', 'usb3.link.command', allow_opaque=True)
+    if lcg.drivers('link_command'):
+        site_assign('LinkCommandGenerator', 'usb3.link.command', 'link_command[11:16]', 'link_command', 16, 0, 11, 'LinkCommandGenerator.crc5')
+    else:
+        # no named command word: the word is what is put onto the low half of the output stream
+        site_assign('LinkCommandGenerator', 'usb3.link.command', 'self.source.payload[11:16]', 'self.source.payload', 32, 0, 11,
+                    'LinkCommandGenerator.crc5')
     det = ctx.ir('LinkCommandDetector', 'usb3.link.command')
     lits = [l for a in list(det.assigns) + [e for f in det.fsms for e in f.edges] for l in a.guard
             if isinstance(l.e, E) and l.e.op == '==' and any(x.op == 'cat' and len(x.args) == 5 for x in l.e.args)]
